@@ -233,12 +233,16 @@ func c22ValOf(kind, desc string) (any, bool) {
 func c22ValCmp(a, b any) int {
 	switch x := a.(type) {
 	case float32:
-		if math.Float32bits(x) == math.Float32bits(b.(float32)) {
+		y := b.(float32)
+		// a NaN reads back as a NaN: its payload / signalling bit is not part of the value (the
+		// float32 → float64 → float32 hops of the wire format quiet a signalling NaN)
+		if math.Float32bits(x) == math.Float32bits(y) || (x != x && y != y) {
 			return 0
 		}
 		return 2
 	case float64:
-		if math.Float64bits(x) == math.Float64bits(b.(float64)) {
+		y := b.(float64)
+		if math.Float64bits(x) == math.Float64bits(y) || (x != x && y != y) {
 			return 0
 		}
 		return 2
